@@ -274,7 +274,7 @@ func c10(c *h.Ctx) {
 			c.Hold(impl != "panic", "no_panic", in, impl, "ok")
 			c.Case("helpers/String", in, true)
 		}
-		// From/OpusFrom (pointer receivers; not modelled): total over all aac index values
+		// From/OpusFrom (pointer receivers; translated by extract/facts_flv.go): all aac index values
 		impl3 := h.Safe(func() string {
 			var a, b flv.AudioSamplingRate
 			var ch flv.AudioChannels
@@ -283,6 +283,7 @@ func c10(c *h.Ctx) {
 			ch.From(aac.Channels(v))
 			return fmt.Sprintf("ok %d %d %d", a, b, ch)
 		})
+		c.Eq("from", "flv.from "+vs, impl3, c.O.Call("flv.from", vs))
 		c.Hold(impl3 != "panic", "no_panic", "flv.from "+vs, impl3, "ok")
 		c.Case("helpers/From", "from "+vs, true)
 	}
